@@ -6,6 +6,8 @@ BMC = "bounded model checking of the real Rust source (Kani/CBMC symbolic execut
 CLAIMS = {
  'C01': ("Solver verdicts over the real NewOrder::new (count, order, type and value of every identifier, 1 and 3 symbolic identifiers) and the real Csr::new against an OpenSSL model that records what the builders were given: CSR key == signing key == given key, digest as configured (none for EdDSA), SAN entries exactly the given names in order, subject attribute kept.",
          "OpenSSL builders are records (DER/self-signature/SAN encoding trusted); IDNA and IP canonicalisation, JSON serialisation and the CSR-key/key-file link of the flow are outside (see evidence).", "5 C01"),
+ 'C04': ("Solver verdicts on the key/algorithm binding of every JWS signature (7x9 table, sign() dispatch: one signature by the given key over the whole input with the right digest), on the fixed-width R||S encoding for ECDSA components of every minimal length (P-256/384/521) and on nonce hygiene of http::get (a nonce is stored only if the server issued a well-formed one).",
+         "Narrow claim: the JWS envelope (protected header, payload encoding) and nonce freshness across POST retries are outside (serde_json/base64 did not converge; CBMC 6.11 crashes on http::post). OpenSSL model and reqwest model are listed in the evidence.", "4 C04"),
  'C05': ("For a name and its wildcard configured with any of the 3x3 challenge assignments in either order, and for each single form, the solver shows the real lookup picks the entry matching the authorization's wildcard flag; unknown names are rejected.",
          "Only the identifier/challenge selection is decided; hook ordering in request_certificate and the proof strings are outside (flow / format! did not converge).", "5 C05"),
  'C06': ("For every (days, secs) pair OpenSSL's time difference can return (full i32 range of days) the solver shows expires_in is the exact remaining lifetime clamped at 0, with no overflow; renew_in/schedule_renewal arithmetic per DESIGN.md C06.",
@@ -26,12 +28,11 @@ CLAIMS = {
          "TOML/serde layer, include cycles and file I/O are outside (not_applicable parts listed in DESIGN.md C19). fmt::format stubbed where message text is irrelevant.", "5 C19"),
 }
 NA = {
- 'C02': "not yet claimed: storage::write_file on the POSIX file model has not reached a solver verdict (see DESIGN.md C02)",
+ 'C02': "storage::write_file on the POSIX file model is encoded (harness/storage.rs) but CBMC aborts after ~400 s of symbolic execution: no solver verdict, so no claim (DESIGN.md 4, C02)",
  'C03': "request_certificate as a whole did not reach a solver verdict within reach of Kani/CBMC (async state machine + heap): no sound check, see DESIGN.md section 4",
- 'C04': "not yet claimed: JWS construction goes through serde_json/base64/format! on symbolic strings, which did not converge; key/algorithm binding and signature width are decided under C15",
- 'C07': "not yet claimed: see DESIGN.md C07",
- 'C10': "not yet claimed: hooks::call / Config::get_hook did not reach a solver verdict (hashbrown + Hook clones exceed 20 GB)",
- 'C11': "not yet claimed: see DESIGN.md C11",
+ 'C07': "renew_certificate with cuts is encoded (harness/main_event_loop.rs) but every run ended in solver out-of-memory or timeout (Arc<RwLock<Account>> drop glue, hashbrown): no verdict, no claim",
+ 'C10': "hooks::call/call_single on the async-process model and Config::get_hook are encoded (harness/hooks.rs, harness/config.rs) but all runs ended in timeout or solver out-of-memory (HashSet<HookType> membership, Hook clones): no verdict, no claim",
+ 'C11': "Account::synchronize with contract models of the three requests is encoded (harness/account.rs) but the runs ended in solver out-of-memory / timeout: no verdict, no claim",
  'C12': "concurrency: Kani/CBMC has no model of interleaved tasks; the single-task lock-discipline substitute depends on the flow harness, which did not converge",
  'C16': "tacd's observable behaviour is a TLS handshake produced by OpenSSL through FFI over a socket; no Rust-side logic to execute symbolically",
  'C17': "process survival under connection histories (threads, sockets, OpenSSL accept, panic=abort): outside what Kani/CBMC can model",
@@ -48,7 +49,7 @@ def main():
             "evidence_file": "evidence/%s.json" % pid,
             "replay_cmd_template": "./check %s --replay {path}" % pid,
             "engine": "kani-bmc",
-            "level_claimed": {"category": "model_checking", "text": text, "design_ref": "DESIGN.md section " + ref},
+            "level_claimed": {"category": "model_checking", "text": text, "design_ref": "DESIGN.md section 4, " + ref.split()[-1]},
             "level_note": note,
             "technique": BMC,
         })
